@@ -56,6 +56,12 @@ def timelines(draw, max_events=4, span=None):
             choices.append(st.sampled_from(later))
             choices.append(st.sampled_from(later))
         warps.append([k, draw(st.one_of(*choices))])
+    if warps and draw(st.integers(0, 2)) == 0:
+        # another warp starting exactly on, one or two ticks after, or one tick before the end of an existing one
+        k0, l0 = draw(st.sampled_from(warps))
+        start = k0 + l0 + draw(st.sampled_from([0, 1, 1, 2, -1]))
+        if 0 <= start <= hi + 96 and start not in [k for k, _ in warps]:
+            warps = sorted(warps + [[start, draw(st.sampled_from([1, 2, 24, 48]))]])
     return {
         "bpms": bpms,
         "stops": stops,
